@@ -251,3 +251,179 @@ fn(WeightedConcurrency, "release", args={"weight": Int},
 fn(WeightedConcurrency, "has_capacity", args={"weight": Int},
    ensures=[("result", lambda s: iff(s.result, s.self._used_capacity + s.weight <= s.self._total_capacity)),
             ("pure", lambda s: unchanged(s, s.self))])
+
+# ============================================================================ C. Queue / QueueDriver / Server
+from happysimulator.components.queued_resource import QueuedResource, _QueuedResourceWorkerAdapter  # noqa: E402
+from happysimulator.components.server.server import Server  # noqa: E402
+from happysimulator.distributions.latency_distribution import LatencyDistribution  # noqa: E402
+
+cls(QueuePollEvent, fields={"requestor": OptRef(Entity)})
+cls(QueueNotifyEvent, fields={"queue_entity": OptRef(Entity)})
+EVENT_KINDS = [Event, QueuePollEvent, QueueNotifyEvent, QueueDeliverEvent]
+cls(QueueDeliverEvent, fields={"payload": OptRef(Event, variants=[Event]), "queue_entity": OptRef(Entity)})
+ANY_EVENT = Ref(Event, variants=EVENT_KINDS)
+
+# ---- the QueuePolicy interface contract (every implementation of part A refines it) ---------
+# ghost view: g_items = held items in the order `pop` will return them is policy specific; the
+# interface only exposes size, capacity and membership.
+cls(QueuePolicy, ghost={"g_size": Int, "g_cap": IntInf},
+    inv=[("size-in-range", lambda o: (o.g_size >= 0) & within(o.g_size, o.g_cap))])
+stub_of(QueuePolicy, "is_empty", returns=Bool, modifies=[], ensures=[lambda s: iff(s.result, s.self.g_size == 0)])
+stub_of(QueuePolicy, "__len__", returns=Int, modifies=[], ensures=[lambda s: s.result == s.self.g_size])
+stub_of(QueuePolicy, "capacity", returns=IntInf, modifies=[], ensures=[
+    lambda s: (isinstance(s.result, float) and isinstance(s.self.g_cap, float))
+    or (not isinstance(s.result, float) and not isinstance(s.self.g_cap, float) and s.result == s.self.g_cap)])
+stub_of(QueuePolicy, "push", returns=Bool, modifies=["g_size"], ensures=[
+    lambda s: iff(s.result, Not(_full(s.old(s.self)))),
+    lambda s: s.self.g_size == s.old(s.self).g_size + ite(s.result, 1, 0)])
+stub_of(QueuePolicy, "pop", returns=OptRef(Event, variants=[Event]), modifies=["g_size"], ensures=[
+    lambda s: iff(s.result is None, s.old(s.self).g_size == 0),
+    lambda s: s.self.g_size == s.old(s.self).g_size - (0 if s.result is None else 1)])
+POLICY_IFACE = [(QueuePolicy, n) for n in ("is_empty", "__len__", "capacity", "push", "pop")]
+
+
+def _full(o):
+    c = o.g_cap
+    if isinstance(c, float):
+        return False
+    return o.g_size >= c
+
+
+cls(Queue, fields={"egress": Ref(Entity), "policy": Ref(QueuePolicy), "stats_dropped": Int, "stats_accepted": Int},
+    inv=[("counters-nonneg", lambda o: (o.stats_dropped >= 0) & (o.stats_accepted >= 0))])
+
+
+def _one_notify(s):
+    r = s.result
+    if len(r) != 1:
+        return False
+    e = r[0]
+    return (isinstance(e, QueueNotifyEvent) and (ns(e.time) == now_ns(s.self)) & same(e.target, s.self.egress)
+            & same(e.queue_entity, s.self) & Not(e._cancelled))
+
+
+fn(Queue, "_handle_enqueue", args={"event": ANY_EVENT}, uses=POLICY_IFACE,
+   focus=lambda s: [s.self.policy], ensures=[
+    ("offered-once-accepted-or-dropped", lambda s:
+        s.self.stats_accepted + s.self.stats_dropped == s.old(s.self).stats_accepted + s.old(s.self).stats_dropped + 1),
+    ("dropped-iff-full", lambda s: iff(s.self.stats_dropped == s.old(s.self).stats_dropped + 1, _full(s.old(s.self.policy)))),
+    ("held-grows-iff-accepted", lambda s: s.self.policy.g_size - s.old(s.self.policy).g_size
+        == s.self.stats_accepted - s.old(s.self).stats_accepted),
+    ("notify-iff-accepted-into-empty", lambda s: _one_notify(s) if len(s.result) else
+        Not((s.old(s.self.policy).g_size == 0) & Not(_full(s.old(s.self.policy))))),
+    ("notify-only-when-was-empty", lambda s: implies(len(s.result) != 0, s.old(s.self.policy).g_size == 0)),
+])
+
+
+def _one_deliver(s):
+    r = s.result
+    if len(r) != 1:
+        return False
+    e = r[0]
+    return (isinstance(e, QueueDeliverEvent) and (ns(e.time) == now_ns(s.self)) & same(e.target, s.event.requestor)
+            & same(e.queue_entity, s.self) & (e.payload is not None))
+
+
+fn(Queue, "_handle_poll", args={"event": Ref(QueuePollEvent)}, uses=POLICY_IFACE,
+   requires=[lambda s: s.event.requestor is not None],
+   focus=lambda s: [s.self.policy], ensures=[
+    ("empty-gives-nothing", lambda s: implies(s.old(s.self.policy).g_size == 0, len(s.result) == 0)),
+    ("nonempty-delivers-exactly-one", lambda s: implies(s.old(s.self.policy).g_size > 0, _one_deliver(s))),
+    ("pops-at-most-one", lambda s: s.self.policy.g_size == s.old(s.self.policy).g_size - len(s.result)),
+    ("counters-untouched", lambda s: unchanged(s, s.self, "stats_accepted", "stats_dropped"))])
+
+# ---- driver ---------------------------------------------------------------------------------
+cls(QueueDriver, fields={"queue": Ref(Entity), "target": Ref(Entity)})
+stub_of(Entity, "has_capacity", returns=Bool, modifies=[], ensures=[])
+
+
+def _one_poll(s, time_ns):
+    r = s.result
+    if not isinstance(r, list) or len(r) != 1:
+        return False
+    e = r[0]
+    return (isinstance(e, QueuePollEvent) and (ns(e.time) == time_ns) & same(e.target, s.self.queue)
+            & same(e.requestor, s.self))
+
+
+fn(QueueDriver, "_handle_notify", args={"_": Ref(QueueNotifyEvent)}, uses=[(Entity, "has_capacity")], ensures=[
+    ("at-most-one-poll-at-now", lambda s: True if len(s.result) == 0 else _one_poll(s, now_ns(s.self)))])
+
+
+def _work_payload_post(s):
+    r = s.result
+    if len(r) != 1:
+        return False
+    e = r[0]
+    ok = same(e, s.payload) & (ns(e.time) == now_ns(s.self)) & same(e.target, s.self.target)
+    ok = ok & (slen(e.on_complete) == slen(s.old(s.payload).on_complete) + 1)
+    return ok
+
+
+fn(QueueDriver, "_handle_work_payload", args={"payload": Ref(Event)}, uses=[(Entity, "has_capacity")], ensures=[
+    # the *original* payload event is re-emitted (same object, hence same creation index: see DESIGN 3-C08
+    # on why I-reserve for unit weights rests on this), retargeted, stamped now, with one more hook
+    ("re-emits-the-payload-itself", _work_payload_post),
+    ("payload-identity-kept", lambda s: (s.payload._sort_index == s.old(s.payload)._sort_index)
+        & (s.payload._id == s.old(s.payload)._id) & iff(s.payload._cancelled, s.old(s.payload)._cancelled))])
+
+fn(QueueDriver, "_handle_delivery", args={"event": Ref(QueueDeliverEvent)}, uses=[(Entity, "has_capacity")], ensures=[
+    ("empty-delivery-ignored", lambda s: implies(s.event.payload is None, len(s.result) == 0)),
+    ("payload-forwarded-once", lambda s: True if s.event.payload is None else
+        (len(s.result) == 1) and same(s.result[0], s.event.payload))])
+
+# ---- server: one atomic segment before the service delay, one after --------------------------
+cls(LatencyDistribution, fields={"_mean_latency": Real})
+stub_of(LatencyDistribution, "get_latency", returns=DURATION, modifies=[], ensures=[lambda s: s.result.nanoseconds >= 0])
+from happysimulator.components.server.concurrency import ConcurrencyModel  # noqa: E402
+cls(Server, fields={"_concurrency_model": Ref(WeightedConcurrency), "_service_time": Ref(LatencyDistribution),
+                    "_downstream": OptRef(Entity), "_requests_completed": Int, "_requests_rejected": Int,
+                    "_total_service_time": Real, "_service_times": Seq(Real)},
+    inv=[("counters-nonneg", lambda o: (o._requests_completed >= 0) & (o._requests_rejected >= 0))],
+    guarantee=[("counters-monotone", lambda old, new: (new._requests_completed >= old._requests_completed)
+                & (new._requests_rejected >= old._requests_rejected))])
+
+
+def _server_result(s):
+    r = s.result
+    ds = s.self._downstream
+    if ds is None:
+        return r is None
+    if r is None:       # rejected path
+        return True
+    e = r[0]
+    return (len(r) == 1) and (ns(e.time) == now_ns(s.self)) & same(e.target, ds) & (e.event_type == s.event.event_type)
+
+
+def _weight(e):
+    """the request weight exactly as Server.handle_queued_event reads it"""
+    m = e.context.get("metadata", None)
+    if m is None:
+        return 1
+    return m.get("weight", 1)
+
+
+fn(Server, "handle_queued_event", args={"event": Ref(Event)},
+   requires=[("request-weight-positive", lambda s: _weight(s.event) >= 1)],
+   uses=[(LatencyDistribution, "get_latency")],
+   focus=lambda s: [s.self._concurrency_model],
+   yields=Yields(
+       at_yield=[("delay-nonnegative", lambda s, y: y >= 0),
+                 ("slot-taken-before-service", lambda s, y:
+                  s.self._concurrency_model._used_capacity >= s.old(s.self._concurrency_model)._used_capacity + 1)],
+       stable=[("Entity", "_clock"), ("Server", "_concurrency_model"), ("Server", "_service_time"), ("Server", "_downstream"),
+               ("Event", "event_type"), ("Event", "context")],
+       rely=[lambda s, b, y: ns(s.self._clock._current_time) >= ns(b.pre(s.self._clock)._current_time)]),
+   ensures=[
+    ("completed-or-rejected-once", lambda s:
+        (s.self._requests_completed - s.pre(s.self)._requests_completed)
+        + (s.self._requests_rejected - s.pre(s.self)._requests_rejected) == 1),
+    ("slot-released-exactly-at-completion", lambda s: implies(
+        s.self._requests_completed == s.pre(s.self)._requests_completed + 1,
+        s.self._concurrency_model._used_capacity == ite(
+            s.pre(s.self._concurrency_model)._used_capacity - _weight(s.event) >= 0,
+            s.pre(s.self._concurrency_model)._used_capacity - _weight(s.event), 0))),
+    ("rejected-takes-no-slot", lambda s: implies(
+        s.self._requests_rejected == s.pre(s.self)._requests_rejected + 1,
+        s.self._concurrency_model._used_capacity == s.pre(s.self._concurrency_model)._used_capacity)),
+    ("forwards-exactly-once-downstream-at-completion-time", _server_result)])
